@@ -12,6 +12,6 @@ echo "--- demo on unchanged tree:"; PYTHONPATH=/repo/src timeout 600 /venv/bin/p
 echo "--- demo with change:"; PYTHONPATH=$d/src timeout 600 /venv/bin/python $sd/demo$n.py 2>&1 | grep -v -i "warn\|pkg_resources" | tail -3; echo "rc=${PIPESTATUS[0]}"
 for c in "$@"; do
   echo "--- check $c with change:"
-  ( cd /verif && VERIF_REPO=$d VERIF_WORKERS=${VERIF_WORKERS:-8} ./check $c --tier quick 2>&1 | grep -E "^violation signature|^VIOLATION|cases=|HARNESS" | sort | uniq | head -8 )
+  ( cd /verif && VERIF_REPO=$d VERIF_EVIDENCE_DIR=/var/tmp/isla-mut/evidence VERIF_WORKERS=${VERIF_WORKERS:-8} ./check $c --tier quick 2>&1 | grep -E "^violation signature|^VIOLATION|cases=|HARNESS" | sort | uniq | head -8 )
 done
 rm -rf $d
